@@ -32,11 +32,13 @@ func Generate(r *rand.Rand, profile string) *Scenario {
 		sc.Cfg.Env = "closed"
 		sc.Cfg.Cycles = 8
 	}
-	if chance(0.2) {
-		sc.Cfg.BindFail = []int{1 + r.Intn(4)}
-	}
-	if chance(0.1) {
-		sc.Cfg.EvictFail = []int{1 + r.Intn(3)}
+	if profile != "closed" && profile != "fifo" {
+		if chance(0.2) {
+			sc.Cfg.BindFail = []int{1 + r.Intn(4)}
+		}
+		if chance(0.1) {
+			sc.Cfg.EvictFail = []int{1 + r.Intn(3)}
+		}
 	}
 
 	// ---- nodes
